@@ -177,17 +177,13 @@ func call(cli rueidis.Client, e int, cs []ecmd, arrived func() bool) (panicked s
 		cli.DoMultiCache(ctx, cts...)
 	case eDoStream:
 		s := cli.DoStream(ctx, buildE(cli, cs[0]))
-		for s.HasNext() {
-			if _, err := s.WriteTo(io.Discard); err != nil {
-				break
-			}
+		for s.HasNext() { // drain every reply (a nil reply is a clean error): the wire goes back to the pool, every command has arrived
+			_, _ = s.WriteTo(io.Discard)
 		}
 	case eDoMultiStream:
 		s := cli.DoMultiStream(ctx, multi(cli)...)
-		for s.HasNext() {
-			if _, err := s.WriteTo(io.Discard); err != nil {
-				break
-			}
+		for s.HasNext() { // drain every reply (a nil reply is a clean error): the wire goes back to the pool, every command has arrived
+			_, _ = s.WriteTo(io.Discard)
 		}
 	case eReceive:
 		rctx, rcancel := context.WithCancel(ctx)
